@@ -16,7 +16,12 @@
 #include <stdio.h>
 #include <stdlib.h>
 #include <string.h>
+#include <linux/filter.h>
+#include <linux/seccomp.h>
+#include <stddef.h>
 #include <sys/ioctl.h>
+#include <sys/prctl.h>
+#include <sys/syscall.h>
 #include <sys/sendfile.h>
 #define C11_FICLONE _IOW(0x94, 9, int)
 #include <sys/stat.h>
@@ -129,11 +134,48 @@ static void print_pstat(const struct stat* s) {
   print_stat_fields(s->st_mode, (long) s->st_nlink, (long) s->st_size, (long) s->st_atim.tv_sec, (long) s->st_mtim.tv_sec, (long) s->st_uid, (long) s->st_gid);
 }
 
+/* Configuration "statx unavailable" (env C11_NOSTATX=<errno>: ENOSYS 38, EPERM 1, EINVAL 22, EOPNOTSUPP 95 — an old
+   kernel, or the seccomp / container sandboxes the comment in uv__fs_statx describes): a seccomp filter installed
+   before the loop and its threads exist answers every statx(2) of this process with that errno, so uv__fs_stat /
+   uv__fs_lstat / uv__fs_fstat take their stat(2) / lstat(2) / fstat(2) fallback.  The oracle then is fstatat(2). */
+static int nostatx;
+static int install_nostatx(int err) {
+  struct sock_filter f[] = {
+    BPF_STMT(BPF_LD | BPF_W | BPF_ABS, offsetof(struct seccomp_data, nr)),
+    BPF_JUMP(BPF_JMP | BPF_JEQ | BPF_K, __NR_statx, 0, 1),
+    BPF_STMT(BPF_RET | BPF_K, SECCOMP_RET_ERRNO | ((unsigned) err & SECCOMP_RET_DATA)),
+    BPF_STMT(BPF_RET | BPF_K, SECCOMP_RET_ALLOW),
+  };
+  struct sock_fprog prog = { (unsigned short) (sizeof f / sizeof f[0]), f };
+  if (prctl(PR_SET_NO_NEW_PRIVS, 1, 0, 0, 0)) return -1;
+  if (prctl(PR_SET_SECCOMP, SECCOMP_MODE_FILTER, &prog)) return -1;
+  { struct statx x; if (syscall(__NR_statx, AT_FDCWD, ".", 0, 0x7ff, &x) != -1 || errno != err) return -1; }
+  return 0;
+}
+static void check_against_statx(const uv_stat_t* u, int dirfd, const char* path, int flags);
+/* same, statx unavailable: every field struct stat has (birth time is not a POSIX field) against fstatat(2) */
+static void check_against_fstatat(const uv_stat_t* u, int dirfd, const char* path, int flags) {
+  struct stat x;
+  memset(&x, 0, sizeof x);
+  if (fstatat(dirfd, path, &x, flags) != 0) { printf("\n!stat-field op=%d fstatat(2) failed errno=%d", opno, errno); return; }
+#define G(name, uv, os) if ((unsigned long long) (uv) != (unsigned long long) (os)) \
+    printf("\n!stat-field op=%d field=%s uv=%llu os=%llu", opno, name, (unsigned long long) (uv), (unsigned long long) (os))
+  G("st_dev", u->st_dev, x.st_dev); G("st_mode", u->st_mode, x.st_mode); G("st_nlink", u->st_nlink, x.st_nlink);
+  G("st_uid", u->st_uid, x.st_uid); G("st_gid", u->st_gid, x.st_gid); G("st_rdev", u->st_rdev, x.st_rdev);
+  G("st_ino", u->st_ino, x.st_ino); G("st_size", u->st_size, x.st_size); G("st_blksize", u->st_blksize, x.st_blksize);
+  G("st_blocks", u->st_blocks, x.st_blocks); G("st_flags", u->st_flags, 0); G("st_gen", u->st_gen, 0);
+  G("st_atim.tv_sec", u->st_atim.tv_sec, x.st_atim.tv_sec); G("st_atim.tv_nsec", u->st_atim.tv_nsec, x.st_atim.tv_nsec);
+  G("st_mtim.tv_sec", u->st_mtim.tv_sec, x.st_mtim.tv_sec); G("st_mtim.tv_nsec", u->st_mtim.tv_nsec, x.st_mtim.tv_nsec);
+  G("st_ctim.tv_sec", u->st_ctim.tv_sec, x.st_ctim.tv_sec); G("st_ctim.tv_nsec", u->st_ctim.tv_nsec, x.st_ctim.tv_nsec);
+#undef G
+}
+
 /* every field of uv_stat_t against statx(2) issued right now on the same object: within one run the kernel
    reports the same values to whichever route asked (nothing touches the object in between), so all 16
    fields must agree, incl. dev/ino/blocks/times/birth time that cannot be compared across trees */
 static void check_against_statx(const uv_stat_t* u, int dirfd, const char* path, int flags) {
   struct statx x;
+  if (nostatx) { check_against_fstatat(u, dirfd, path, flags); return; }
   memset(&x, 0, sizeof x);
   if (statx(dirfd, path, flags, STATX_BASIC_STATS | STATX_BTIME, &x) != 0) { printf("\n!stat-field op=%d statx(2) failed errno=%d", opno, errno); return; }
 #define F(name, uv, os) if ((unsigned long long) (uv) != (unsigned long long) (os)) \
@@ -244,6 +286,10 @@ int main(int argc, char** argv) {
   { char* rp = realpath(".", NULL); if (rp) { strcpy(root, rp); free(rp); } }
   { char* sl; strcpy(parent_dir, root); sl = strrchr(parent_dir, '/'); if (sl && sl != parent_dir) *sl = 0; else parent_dir[0] = 0; }
   umask(0);
+  if (getenv("C11_NOSTATX") && atoi(getenv("C11_NOSTATX")) > 0) {
+    nostatx = atoi(getenv("C11_NOSTATX"));
+    if (install_nostatx(nostatx)) { puts("ROUTE-SKIPPED nostatx"); return 0; }
+  }
   for (i = 0; i < 16; i++) slots[i] = -1;
   loop = &loop_s;
   uv_loop_init(loop);
